@@ -6,7 +6,9 @@ package main
 import (
 	"bufio"
 	"fmt"
+	"math/big"
 	"math/rand"
+	"net"
 	"os"
 	"runtime"
 	"strconv"
@@ -45,6 +47,12 @@ type parked struct {
 	ch    chan struct{}
 }
 
+type panicRule struct {
+	point  string
+	id     int64
+	substr string
+}
+
 type crashRule struct {
 	point  string
 	nth    int64
@@ -65,18 +73,19 @@ type record struct {
 }
 
 var (
-	hookMu    sync.Mutex
-	parkRules []parkRule
-	parkedTab = map[int64]*parked{}
-	tokenSeq  int64
-	crashes   []*crashRule
-	yields    []yieldRule
-	watches   []string
-	recordPfx []string
-	records   []record
-	counts    = map[string]int64{}
-	rng       = rand.New(rand.NewSource(1))
-	hookOn    atomic.Bool
+	hookMu     sync.Mutex
+	parkRules  []parkRule
+	parkedTab  = map[int64]*parked{}
+	tokenSeq   int64
+	crashes    []*crashRule
+	panicRules []panicRule
+	yields     []yieldRule
+	watches    []string
+	recordPfx  []string
+	records    []record
+	counts     = map[string]int64{}
+	rng        = rand.New(rand.NewSource(1))
+	hookOn     atomic.Bool
 )
 
 // lock-discipline monitor: the data store mutex may be skipped (ds:lock-skipped) only while some command holds that
@@ -145,6 +154,15 @@ func hook(point string, id int64, detail string) {
 				syscall.Kill(os.Getpid(), syscall.SIGKILL)
 				select {}
 			}
+		}
+	}
+	for i, pr := range panicRules {
+		if pr.point == point && (pr.substr == "" || detail == pr.substr) && (pr.id == -1 || pr.id == id) {
+			// a fault injected at the hook: the goroutine that reached the point panics (once per rule)
+			panicRules = append(panicRules[:i], panicRules[i+1:]...)
+			hookMu.Unlock()
+			emit("e panicked %s %d %s", point, id, strconv.Quote(detail))
+			panic("verif: fault injected at " + point)
 		}
 	}
 	watched := false
@@ -261,6 +279,68 @@ func handle(verb string, a []string) string {
 		insts[a[0]] = eng
 		instMu.Unlock()
 		return "ok"
+	case "stormclose": // stormclose <port> <dialers> <sleepUs> : start an emulator, let goroutines of THIS process connect in a storm, Close() it, probe every connection
+		// (the clients share the Go scheduler with the emulator, as they do in a user's test binary)
+		port := atoi(a[0])
+		eng, err := redisemu.NewEmulator(lane.NewNullLane(nil), port, "", "", nil)
+		if err != nil {
+			return "err " + err.Error()
+		}
+		eng.Start()
+		addr := fmt.Sprintf("127.0.0.1:%d", port)
+		var stop atomic.Bool
+		var wg sync.WaitGroup
+		var mu sync.Mutex
+		var conns []net.Conn
+		for i := 0; i < atoi(a[1]); i++ {
+			wg.Add(1)
+			go func() {
+				defer wg.Done()
+				for !stop.Load() {
+					c, err := net.DialTimeout("tcp", addr, time.Second)
+					if err != nil {
+						return // the listener is gone
+					}
+					mu.Lock()
+					conns = append(conns, c)
+					mu.Unlock()
+				}
+			}()
+		}
+		time.Sleep(time.Duration(atoi(a[2])) * time.Microsecond)
+		closed := make(chan struct{})
+		t0 := time.Now()
+		go func() { eng.Close(); close(closed) }()
+		hung := false
+		select {
+		case <-closed:
+		case <-time.After(5 * time.Second):
+			hung = true
+		}
+		took := time.Since(t0)
+		stop.Store(true)
+		wg.Wait()
+		survivors := 0
+		for _, c := range conns {
+			c.SetDeadline(time.Now().Add(300 * time.Millisecond))
+			if _, err := c.Write([]byte("*1\r\n$4\r\nPING\r\n")); err == nil {
+				buf := make([]byte, 16)
+				if k, err := c.Read(buf); err == nil && k > 0 {
+					survivors++
+				}
+			}
+		}
+		for _, c := range conns {
+			c.Close()
+		}
+		if hung {
+			// the surviving connections are gone now: the termination can complete
+			select {
+			case <-closed:
+			case <-time.After(5 * time.Second):
+			}
+		}
+		return fmt.Sprintf("ok conns=%d survivors=%d hung=%v close_us=%d", len(conns), survivors, hung, took.Microseconds())
 	case "newserver": // newserver <name> <port>  (test-server-simple.go API)
 		eng := redisemu.NewServer(nil, atoi(a[1]))
 		instMu.Lock()
@@ -296,6 +376,67 @@ func handle(verb string, a []string) string {
 		} else {
 			eng.SetHook(nil)
 		}
+		return "ok"
+	case "replyhook": // replyhook <name> : a dispatch hook (public SetHook API) that answers ECHO verif:<kind> with a Go value of that kind
+		instMu.Lock()
+		eng := insts[a[0]]
+		instMu.Unlock()
+		if eng == nil {
+			return "err no such instance"
+		}
+		eng.SetHook(func(cmd string, args map[string]any) (bool, any, error) {
+			if cmd != "echo" {
+				return false, nil, nil
+			}
+			msg, _ := args["message"].(string)
+			if !strings.HasPrefix(msg, "verif:") {
+				return false, nil, nil
+			}
+			big1, _ := new(big.Int).SetString("123456789012345678901234567890", 10)
+			switch msg[6:] {
+			case "set3":
+				return true, map[any]struct{}{"alpha": {}, "beta": {}, 7: {}}, nil
+			case "set1":
+				return true, map[any]struct{}{"only": {}}, nil
+			case "set0":
+				return true, map[any]struct{}{}, nil
+			case "set-many":
+				m := map[any]struct{}{}
+				for i := 0; i < 40; i++ {
+					m[fmt.Sprintf("m%02d", i)] = struct{}{}
+				}
+				return true, m, nil
+			case "map-any":
+				return true, map[any]any{"k1": "v1", 2: 2.5, "k3": true}, nil
+			case "map-string-any":
+				return true, map[string]any{"a": 1, "b": "two", "c": []any{1, "x", 2.25}}, nil
+			case "map-string-string":
+				return true, map[string]string{"f1": "v1", "f2": "v2", "": "empty"}, nil
+			case "array-mixed":
+				return true, []any{1, "two", 3.5, true, false, nil, big1, []any{"nested", map[any]struct{}{"s1": {}}}, map[string]any{"k": map[any]struct{}{"deep": {}}}}, nil
+			case "double":
+				return true, 0.1, nil
+			case "double-int":
+				return true, 3.0, nil
+			case "bool":
+				return true, true, nil
+			case "bignum":
+				return true, big1, nil
+			case "ints":
+				return true, []int{1, 2, 3}, nil
+			case "strings":
+				return true, []string{"a", "", "c"}, nil
+			case "nil":
+				return true, nil, nil
+			case "int":
+				return true, 42, nil
+			case "string":
+				return true, "plain", nil
+			case "error":
+				return false, nil, fmt.Errorf("refused by the hook")
+			}
+			return false, nil, nil
+		})
 		return "ok"
 	case "forget":
 		instMu.Lock()
@@ -366,6 +507,12 @@ func handle(verb string, a []string) string {
 			c.substr = a[2]
 		}
 		crashes = append(crashes, c)
+		hookMu.Unlock()
+		hookOn.Store(true)
+		return "ok"
+	case "panicat": // panicat <point> <client id|-1> <detail> : the next goroutine reaching the point with this detail panics there
+		hookMu.Lock()
+		panicRules = append(panicRules, panicRule{point: a[0], id: int64(atoi(a[1])), substr: a[2]})
 		hookMu.Unlock()
 		hookOn.Store(true)
 		return "ok"
